@@ -786,6 +786,12 @@ func (e *Env) stripVendorAnchored() {
 		e.Run.Violation("R-RESOLVE", "stripVendor exists", "", "function missing")
 		return
 	}
+	bodies := e.withDirectCallees(pkg, fd)
+	inspectAll := func(f func(ast.Node) bool) {
+		for _, b := range bodies {
+			ast.Inspect(b, f)
+		}
+	}
 	n := 0
 	constStr := func(x ast.Expr) (string, bool) {
 		if tv, ok := info.Types[x]; ok && tv.Value != nil && tv.Value.Kind() == constant.String {
@@ -793,7 +799,7 @@ func (e *Env) stripVendorAnchored() {
 		}
 		return "", false
 	}
-	ast.Inspect(fd.Body, func(nd ast.Node) bool {
+	inspectAll(func(nd ast.Node) bool {
 		call, ok := nd.(*ast.CallExpr)
 		if !ok {
 			return true
@@ -821,7 +827,7 @@ func (e *Env) stripVendorAnchored() {
 	e.Run.Floor("R-RESOLVE", "vendor searches in stripVendor", n, 1)
 	// the last occurrence decides (nested vendor directories): a search anywhere in the path must be LastIndex
 	usesLast := false
-	ast.Inspect(fd.Body, func(nd ast.Node) bool {
+	inspectAll(func(nd ast.Node) bool {
 		if call, ok := nd.(*ast.CallExpr); ok {
 			if fn := c.Callee(call); fn != nil && funcKey(fn) == "strings.LastIndex" {
 				usesLast = true
